@@ -60,8 +60,8 @@ CHECKS = {
    text="For generated interface configurations (every field absent/null/value, lifetimes at every field boundary up to 2^32, 0..16 prefixes with host bits, $self6 substitution, NAT64 lengths, URLs of 0..240 octets) the advertisement built by the real code is decoded by an independent RFC decoder and TLC decides equality with the configuration: header fields, option multiset, per-option content, layout (multiples of 8, reserved bits zero, host bits zero), clamped or rejected when a value does not fit its field.",
    note="function level through the hook radv::verif_build_ra; the periodic scheduler and the raw ICMPv6 socket are not driven; there is no interleaving to explore, the MC part covers only the arithmetic lemmas of the model"),
  "C05": dict(level="exploration", design="4/C05", technique="TLA+ WireGrammar (the structured input space, enumerated exhaustively by TLC) + TLC trace validation (IngestTrace: outcome in {ok, err}, every planned case fed, valid request still served) of the real decoders/handlers in a child process and of the real DNS service under hostile datagrams, TCP streams and upstream replies",
-   text="TLC enumerates the product of (format x item x boundary length x fill x honesty of the declared length), DNS name shapes (self/loops/chains/forward/out-of-bounds pointers, label and name length boundaries) x 15 positions, record types x rdlengths, OPT placements, header fields x boundary values; the harness assembles a consistent packet per case and runs everything the services do with it (decode, logging accessors, handle_pkt, reply framing, cache insert and lookups hours later); plus every truncation and boundary octet at every offset of seed packets and seeded random strings; a stratified sample also goes through the real DNS listeners (UDP, TCP with lying frames) and through scripted upstreams, after which valid queries must be answered. Exploration, not proof: the byte-string space is sampled by structure.",
-   note="outcomes panic/abort/hang are observed per input in a child process; DHCP/RA/LLDP services are exercised at function level (no raw-frame rig); the spec part is an input grammar and an outcome predicate, there is no interleaving to model-check"),
+   text="TLC enumerates the product of (format x item x boundary length x fill x honesty of the declared length), DNS name shapes (self/loops/chains/forward/out-of-bounds pointers, label and name length boundaries) x 15 positions, record types x rdlengths, OPT placements, header fields x boundary values; the harness assembles a consistent packet per case and runs everything the services do with it (decode, logging accessors, handle_pkt, reply framing, cache insert and lookups hours later); plus every truncation and boundary octet at every offset of seed packets and seeded random strings; a stratified sample also goes through the real DNS listeners (UDP, TCP with lying frames), through scripted upstreams, and as frames to the real DHCP, RA and LLDP services on a veth pair, after which valid requests must be answered. Exploration, not proof: the byte-string space is sampled by structure.",
+   note="outcomes panic/abort/hang are observed per input in a child process; DHCP/RA/LLDP services are also exercised with frames on a veth pair; the spec part is an input grammar and an outcome predicate, there is no interleaving to model-check"),
  "C19": dict(level="exploration", design="4/C19", technique="TLA+ ConfGrammar (positions x typed replacement alphabets of erbium.conf(5), enumerated exhaustively by TLC) + TLC trace validation (ConfTrace: load in {ok, err with message}, documented examples load, serving with every accepted configuration ends ok, every planned case loaded) of the real loader and handlers in a child process and of the real DNS service",
    text="TLC enumerates every (position, replacement) of a document that uses every key of the manual: 22 generic replacements (missing key, null, wrong types, empty and nested collections) and the boundary alphabet of the position's type (prefix lengths 0..255, 40 duration spellings, addresses, socket addresses, domains, URLs and lists beyond the option size limits); each is rendered, loaded by the real loader, and, when accepted, used to serve 60 DHCP requests, 2 advertisements per interface, 28 ACL decisions and (routing/ACL positions) 5 DNS queries through the live DNS service; plus the manual's and the shipped examples (must load), special documents and byte-level mutations of the examples. Panic, abort (3 GiB) and hang (180 s per request) are observed per step in a child process.",
    note="exploration of a grammar-structured sample; whether an accepted configuration means what the manual says is the business of C02/C11/C17, not of this check"),
